@@ -320,65 +320,80 @@ abbrev DistNumOK (w : Rat) : Prop := TokOK (numStr w) w
 theorem printDist_gauss (a b : Rat) : printDist { fam := .gauss, params := [a, b] } = distTextOf "gauss".toList (numStr a) (numStr b) := by
   simp [printDist, distTextOf, pairTextOf, famText]
 
+/-- **C09 (parameter order, every written numeral)**: `|gauss(ta, tb)|` reads as family `gauss` with the parameters in the written order, for all numerals `ta`, `tb` of the literal syntax -/
+theorem dist_gauss_written (ta tb : Str) (a b : Rat) (ha : TokOK ta a) (hb : TokOK tb b) :
+    parseDist (distTextOf "gauss".toList ta tb) = .ok { fam := .gauss, params := [a, b] } := by
+  generalize hn : "gauss".toList = name
+  have hx : name = 'g' :: ['a', 'u', 's', 's'] := by rw [← hn]; decide
+  have hf : ∀ c, c ∈ name → c ∈ ['g', 'a', 'u', 's'] := by intro c hc; rw [hx] at hc; simp at hc ⊢; tauto
+  have h1 : contains (distTextOf name ta tb) "flory_schulz".toList = false :=
+    contains_absent _ _ 'f' (by decide) (absent_distText _ ha hb 'f' (by decide) (by decide) (fun h => by have := hf _ h; simp at this))
+  have h2 : contains (distTextOf name ta tb) "gauss".toList = true := by rw [hn]; exact contains_at_one _ _ _
+  refine parseDist_pair .gauss name ta tb a b ha hb (by rw [← hn]; rfl) 'g' _ hx (by decide) ?_ (by decide) (by decide) rfl (by intro h; cases h)
+  simp only [distDispatch, List.find?_cons, h1, h2]
+  rfl
+
 /-- **C01 / C11 (the text form reproduces the parameters: gauss)** -/
 theorem dist_gauss_roundtrip (a b : Rat) (ha : DistNumOK a) (hb : DistNumOK b) :
     parseDist (printDist { fam := .gauss, params := [a, b] }) = .ok { fam := .gauss, params := [a, b] } := by
   rw [printDist_gauss]
-  generalize hn : "gauss".toList = name
-  have hx : name = 'g' :: ['a', 'u', 's', 's'] := by rw [← hn]; decide
-  have hf : ∀ c, c ∈ name → c ∈ ['g', 'a', 'u', 's'] := by intro c hc; rw [hx] at hc; simp at hc ⊢; tauto
-  have h1 : contains (distTextOf name (numStr a) (numStr b)) "flory_schulz".toList = false :=
-    contains_absent _ _ 'f' (by decide) (absent_distText _ ha hb 'f' (by decide) (by decide) (fun h => by have := hf _ h; simp at this))
-  have h2 : contains (distTextOf name (numStr a) (numStr b)) "gauss".toList = true := by rw [hn]; exact contains_at_one _ _ _
-  refine parseDist_pair .gauss name (numStr a) (numStr b) a b ha hb (by rw [← hn]; rfl) 'g' _ hx (by decide) ?_ (by decide) (by decide) rfl (by intro h; cases h)
-  simp only [distDispatch, List.find?_cons, h1, h2]
-  rfl
+  exact dist_gauss_written _ _ a b ha hb
 
 theorem printDist_schulzZimm (a b : Rat) : printDist { fam := .schulzZimm, params := [a, b] } = distTextOf "schulz_zimm".toList (numStr a) (numStr b) := by
   simp [printDist, distTextOf, pairTextOf, famText]
+
+/-- **C09 (parameter order, every written numeral)**: `|schulz_zimm(ta, tb)|` reads as family `schulzZimm` with the parameters in the written order, for all numerals `ta`, `tb` of the literal syntax -/
+theorem dist_schulzZimm_written (ta tb : Str) (a b : Rat) (hab : a ≠ b) (ha : TokOK ta a) (hb : TokOK tb b) :
+    parseDist (distTextOf "schulz_zimm".toList ta tb) = .ok { fam := .schulzZimm, params := [a, b] } := by
+  generalize hn : "schulz_zimm".toList = name
+  have hx : name = 's' :: ['c', 'h', 'u', 'l', 'z', '_', 'z', 'i', 'm', 'm'] := by rw [← hn]; decide
+  have hf : ∀ c, c ∈ name → c ∈ ['s', 'c', 'h', 'u', 'l', 'z', '_', 'i', 'm'] := by intro c hc; rw [hx] at hc; simp at hc ⊢; tauto
+  have ab : ∀ c, c ∉ ['s', 'c', 'h', 'u', 'l', 'z', '_', 'i', 'm'] → c ∉ name := fun c h h' => h (hf c h')
+  have h1 : contains (distTextOf name ta tb) "flory_schulz".toList = false :=
+    contains_absent _ _ 'f' (by decide) (absent_distText _ ha hb 'f' (by decide) (by decide) (ab _ (by decide)))
+  have h2 : contains (distTextOf name ta tb) "gauss".toList = false :=
+    contains_absent _ _ 'g' (by decide) (absent_distText _ ha hb 'g' (by decide) (by decide) (ab _ (by decide)))
+  have h3 : contains (distTextOf name ta tb) "uniform".toList = false :=
+    contains_absent _ _ 'f' (by decide) (absent_distText _ ha hb 'f' (by decide) (by decide) (ab _ (by decide)))
+  have h4 : contains (distTextOf name ta tb) "schulz_zimm".toList = true := by rw [hn]; exact contains_at_one _ _ _
+  refine parseDist_pair .schulzZimm name ta tb a b ha hb (by rw [← hn]; rfl) 's' _ hx (by decide) ?_ (by decide) (by decide) rfl (fun _ => hab)
+  simp only [distDispatch, List.find?_cons, h1, h2, h3, h4]
+  rfl
 
 /-- **C01 / C11 (the text form reproduces the parameters: schulz_zimm, Mw ≠ Mn)** -/
 theorem dist_schulzZimm_roundtrip (a b : Rat) (hab : a ≠ b) (ha : DistNumOK a) (hb : DistNumOK b) :
     parseDist (printDist { fam := .schulzZimm, params := [a, b] }) = .ok { fam := .schulzZimm, params := [a, b] } := by
   rw [printDist_schulzZimm]
-  generalize hn : "schulz_zimm".toList = name
-  have hx : name = 's' :: ['c', 'h', 'u', 'l', 'z', '_', 'z', 'i', 'm', 'm'] := by rw [← hn]; decide
-  have hf : ∀ c, c ∈ name → c ∈ ['s', 'c', 'h', 'u', 'l', 'z', '_', 'i', 'm'] := by intro c hc; rw [hx] at hc; simp at hc ⊢; tauto
-  have ab : ∀ c, c ∉ ['s', 'c', 'h', 'u', 'l', 'z', '_', 'i', 'm'] → c ∉ name := fun c h h' => h (hf c h')
-  have h1 : contains (distTextOf name (numStr a) (numStr b)) "flory_schulz".toList = false :=
-    contains_absent _ _ 'f' (by decide) (absent_distText _ ha hb 'f' (by decide) (by decide) (ab _ (by decide)))
-  have h2 : contains (distTextOf name (numStr a) (numStr b)) "gauss".toList = false :=
-    contains_absent _ _ 'g' (by decide) (absent_distText _ ha hb 'g' (by decide) (by decide) (ab _ (by decide)))
-  have h3 : contains (distTextOf name (numStr a) (numStr b)) "uniform".toList = false :=
-    contains_absent _ _ 'f' (by decide) (absent_distText _ ha hb 'f' (by decide) (by decide) (ab _ (by decide)))
-  have h4 : contains (distTextOf name (numStr a) (numStr b)) "schulz_zimm".toList = true := by rw [hn]; exact contains_at_one _ _ _
-  refine parseDist_pair .schulzZimm name (numStr a) (numStr b) a b ha hb (by rw [← hn]; rfl) 's' _ hx (by decide) ?_ (by decide) (by decide) rfl (fun _ => hab)
-  simp only [distDispatch, List.find?_cons, h1, h2, h3, h4]
-  rfl
+  exact dist_schulzZimm_written _ _ a b hab ha hb
 
 theorem printDist_logNormal (a b : Rat) : printDist { fam := .logNormal, params := [a, b] } = distTextOf "log_normal".toList (numStr a) (numStr b) := by
   simp [printDist, distTextOf, pairTextOf, famText]
+
+/-- **C09 (parameter order, every written numeral)**: `|log_normal(ta, tb)|` reads as family `logNormal` with the parameters in the written order, for all numerals `ta`, `tb` of the literal syntax -/
+theorem dist_logNormal_written (ta tb : Str) (a b : Rat) (ha : TokOK ta a) (hb : TokOK tb b) :
+    parseDist (distTextOf "log_normal".toList ta tb) = .ok { fam := .logNormal, params := [a, b] } := by
+  generalize hn : "log_normal".toList = name
+  have hx : name = 'l' :: ['o', 'g', '_', 'n', 'o', 'r', 'm', 'a', 'l'] := by rw [← hn]; decide
+  have hf : ∀ c, c ∈ name → c ∈ ['l', 'o', 'g', '_', 'n', 'r', 'm', 'a'] := by intro c hc; rw [hx] at hc; simp at hc ⊢; tauto
+  have ab : ∀ c, c ∉ ['l', 'o', 'g', '_', 'n', 'r', 'm', 'a'] → c ∉ name := fun c h h' => h (hf c h')
+  have h1 : contains (distTextOf name ta tb) "flory_schulz".toList = false :=
+    contains_absent _ _ 'f' (by decide) (absent_distText _ ha hb 'f' (by decide) (by decide) (ab _ (by decide)))
+  have h2 : contains (distTextOf name ta tb) "gauss".toList = false :=
+    contains_absent _ _ 'u' (by decide) (absent_distText _ ha hb 'u' (by decide) (by decide) (ab _ (by decide)))
+  have h3 : contains (distTextOf name ta tb) "uniform".toList = false :=
+    contains_absent _ _ 'u' (by decide) (absent_distText _ ha hb 'u' (by decide) (by decide) (ab _ (by decide)))
+  have h4 : contains (distTextOf name ta tb) "schulz_zimm".toList = false :=
+    contains_absent _ _ 's' (by decide) (absent_distText _ ha hb 's' (by decide) (by decide) (ab _ (by decide)))
+  have h5 : contains (distTextOf name ta tb) "log_normal".toList = true := by rw [hn]; exact contains_at_one _ _ _
+  refine parseDist_pair .logNormal name ta tb a b ha hb (by rw [← hn]; rfl) 'l' _ hx (by decide) ?_ (by decide) (by decide) rfl (by intro h; cases h)
+  simp only [distDispatch, List.find?_cons, h1, h2, h3, h4, h5]
+  rfl
 
 /-- **C01 / C11 (the text form reproduces the parameters: log_normal)** -/
 theorem dist_logNormal_roundtrip (a b : Rat) (ha : DistNumOK a) (hb : DistNumOK b) :
     parseDist (printDist { fam := .logNormal, params := [a, b] }) = .ok { fam := .logNormal, params := [a, b] } := by
   rw [printDist_logNormal]
-  generalize hn : "log_normal".toList = name
-  have hx : name = 'l' :: ['o', 'g', '_', 'n', 'o', 'r', 'm', 'a', 'l'] := by rw [← hn]; decide
-  have hf : ∀ c, c ∈ name → c ∈ ['l', 'o', 'g', '_', 'n', 'r', 'm', 'a'] := by intro c hc; rw [hx] at hc; simp at hc ⊢; tauto
-  have ab : ∀ c, c ∉ ['l', 'o', 'g', '_', 'n', 'r', 'm', 'a'] → c ∉ name := fun c h h' => h (hf c h')
-  have h1 : contains (distTextOf name (numStr a) (numStr b)) "flory_schulz".toList = false :=
-    contains_absent _ _ 'f' (by decide) (absent_distText _ ha hb 'f' (by decide) (by decide) (ab _ (by decide)))
-  have h2 : contains (distTextOf name (numStr a) (numStr b)) "gauss".toList = false :=
-    contains_absent _ _ 'u' (by decide) (absent_distText _ ha hb 'u' (by decide) (by decide) (ab _ (by decide)))
-  have h3 : contains (distTextOf name (numStr a) (numStr b)) "uniform".toList = false :=
-    contains_absent _ _ 'u' (by decide) (absent_distText _ ha hb 'u' (by decide) (by decide) (ab _ (by decide)))
-  have h4 : contains (distTextOf name (numStr a) (numStr b)) "schulz_zimm".toList = false :=
-    contains_absent _ _ 's' (by decide) (absent_distText _ ha hb 's' (by decide) (by decide) (ab _ (by decide)))
-  have h5 : contains (distTextOf name (numStr a) (numStr b)) "log_normal".toList = true := by rw [hn]; exact contains_at_one _ _ _
-  refine parseDist_pair .logNormal name (numStr a) (numStr b) a b ha hb (by rw [← hn]; rfl) 'l' _ hx (by decide) ?_ (by decide) (by decide) rfl (by intro h; cases h)
-  simp only [distDispatch, List.find?_cons, h1, h2, h3, h4, h5]
-  rfl
+  exact dist_logNormal_written _ _ a b ha hb
 
 /-- non-vacuity of the side condition: 1500.0, 50.0, 2.5e-05, 1.05 -/
 example : DistNumOK 1500 ∧ DistNumOK 50 ∧ DistNumOK (1 / 40000) ∧ DistNumOK (21 / 20) := by
@@ -387,65 +402,75 @@ example : DistNumOK 1500 ∧ DistNumOK 50 ∧ DistNumOK (1 / 40000) ∧ DistNumO
 /-! ## one-parameter families -/
 
 /-- the argument text `(a)` of a one-parameter distribution -/
-def singleText (a : Rat) : Str := '(' :: (numStr a ++ [')'])
+def singleTextOf (ta : Str) : Str := '(' :: (ta ++ [')'])
 
-theorem pyValue_single (n : Nat) (a : Rat) (ha : DistNumOK a) (tail : Str) :
-    pyValue (n + 3) ('(' :: (numStr a ++ ')' :: tail)) = .ok (.num a, tail) := by
-  obtain ⟨x, xs, hsk, hx⟩ := skipWs_digit (numStr a) a ha (')' :: tail)
+/-- the argument text `(a)` printed with `repr` -/
+abbrev singleText (a : Rat) : Str := singleTextOf (numStr a)
+
+theorem pyValue_single (n : Nat) (ta : Str) (a : Rat) (ha : TokOK ta a) (tail : Str) :
+    pyValue (n + 3) ('(' :: (ta ++ ')' :: tail)) = .ok (.num a, tail) := by
+  obtain ⟨x, xs, hsk, hx⟩ := skipWs_digit ta a ha (')' :: tail)
   refine pyValue_paren_single (n + 2) _ _ x xs _ _ (by unfold skipWs; simp [isWs]) hsk hx ?_
-  rw [pyItems_close (n + 1) _ _ false (.num a) tail (pyValue_number n (numStr a) a ha ')' (Or.inr rfl) tail)]
+  rw [pyItems_close (n + 1) _ _ false (.num a) tail (pyValue_number n ta a ha ')' (Or.inr rfl) tail)]
   rfl
 
-theorem parseTuple_single (a : Rat) (ha : DistNumOK a) : parseTuple (singleText a) = .ok ([a], false) := by
-  have hnohash : ∀ c ∈ singleText a, (c != '#') = true := by
+theorem parseTuple_single (ta : Str) (a : Rat) (ha : TokOK ta a) : parseTuple (singleTextOf ta) = .ok ([a], false) := by
+  have hnohash : ∀ c ∈ singleTextOf ta, (c != '#') = true := by
     intro c hc
-    simp only [singleText, List.mem_cons, List.mem_append, List.mem_nil_iff, or_false] at hc
+    simp only [singleTextOf, List.mem_cons, List.mem_append, List.mem_nil_iff, or_false] at hc
     rcases hc with rfl | hc | rfl
     · decide
     · simpa using ha.no_hash c hc
     · decide
   unfold parseTuple
   simp only [takeWhile_all _ _ hnohash]
-  have hv : pyValue (2 * (singleText a).length + 5) (singleText a ++ [')']) = .ok (.num a, [')']) := by
-    have := pyValue_single (2 * (singleText a).length + 2) a ha [')']
-    simpa [singleText] using this
+  have hv : pyValue (2 * (singleTextOf ta).length + 5) (singleTextOf ta ++ [')']) = .ok (.num a, [')']) := by
+    have := pyValue_single (2 * (singleTextOf ta).length + 2) ta a ha [')']
+    simpa [singleTextOf] using this
   rw [pyItems_close _ _ [] false _ [] hv]
   simp
 
-def distText1 (name : Str) (a : Rat) : Str := '|' :: (name ++ (singleText a ++ ['|']))
+def distText1Of (name ta : Str) : Str := '|' :: (name ++ (singleTextOf ta ++ ['|']))
+
+abbrev distText1 (name : Str) (a : Rat) : Str := distText1Of name (numStr a)
 
 theorem printDist_florySchulz (a : Rat) : printDist { fam := .florySchulz, params := [a] } = distText1 "flory_schulz".toList a := by
-  simp [printDist, distText1, singleText, famText]
+  simp [printDist, distText1Of, singleTextOf, famText]
 
-/-- **C01 / C11 (the text form reproduces the parameter: flory_schulz)** -/
-theorem dist_florySchulz_roundtrip (a : Rat) (ha : DistNumOK a) :
-    parseDist (printDist { fam := .florySchulz, params := [a] }) = .ok { fam := .florySchulz, params := [a] } := by
-  rw [printDist_florySchulz]
+/-- **C09 (parameter, every written numeral)**: `|flory_schulz(ta)|` reads as family `florySchulz` with the value of `ta` -/
+theorem dist_florySchulz_written (ta : Str) (a : Rat) (ha : TokOK ta a) :
+    parseDist (distText1Of "flory_schulz".toList ta) = .ok { fam := .florySchulz, params := [a] } := by
   generalize hn : "flory_schulz".toList = name
   have hx : name = 'f' :: ['l', 'o', 'r', 'y', '_', 's', 'c', 'h', 'u', 'l', 'z'] := by rw [← hn]; decide
-  have h1 : contains (distText1 name a) "flory_schulz".toList = true := by rw [hn]; exact contains_at_one _ _ _
-  have hrev : ∃ ys, (name ++ singleText a).reverse = ')' :: ys := ⟨(name ++ '(' :: numStr a).reverse, by simp [singleText]⟩
+  have h1 : contains (distText1Of name ta) "flory_schulz".toList = true := by rw [hn]; exact contains_at_one _ _ _
+  have hrev : ∃ ys, (name ++ singleTextOf ta).reverse = ')' :: ys := ⟨(name ++ '(' :: ta).reverse, by simp [singleTextOf]⟩
   obtain ⟨ys, hys⟩ := hrev
-  have hstrip : stripChars "| \t\n".toList (distText1 name a) = name ++ singleText a := by
-    unfold stripChars distText1
-    have := stripBy_sandwich (fun c => ("| \t\n".toList).contains c) ['|'] (name ++ singleText a) ['|']
+  have hstrip : stripChars "| \t\n".toList (distText1Of name ta) = name ++ singleTextOf ta := by
+    unfold stripChars distText1Of
+    have := stripBy_sandwich (fun c => ("| \t\n".toList).contains c) ['|'] (name ++ singleTextOf ta) ['|']
       (by intro c hc; simp at hc; subst hc; decide) (by intro c hc; simp at hc; subst hc; decide)
-      'f' (['l', 'o', 'r', 'y', '_', 's', 'c', 'h', 'u', 'l', 'z'] ++ singleText a) (by rw [hx]; rfl) (by decide) ')' ys hys (by decide)
+      'f' (['l', 'o', 'r', 'y', '_', 's', 'c', 'h', 'u', 'l', 'z'] ++ singleTextOf ta) (by rw [hx]; rfl) (by decide) ')' ys hys (by decide)
     simpa using this
-  have hdrop : ((name ++ singleText a).drop name.length) = singleText a := List.drop_left
+  have hdrop : ((name ++ singleTextOf ta).drop name.length) = singleTextOf ta := List.drop_left
   have hname : (famText FamilyName.florySchulz).toList = name := by rw [← hn]; rfl
   unfold parseDist
   simp only [distDispatch, List.find?_cons, h1]
-  simp only [hname, hstrip, startsWith, isPrefix_append, hdrop, parseTuple_single a ha]
+  simp only [hname, hstrip, startsWith, isPrefix_append, hdrop, parseTuple_single ta a ha]
   have e1 : (FamilyName.florySchulz == FamilyName.poisson) = false := by decide
   have e2 : (FamilyName.florySchulz == FamilyName.uniform) = false := by decide
   have e3 : (FamilyName.florySchulz == FamilyName.schulzZimm) = false := by decide
   simp [e1, e2, e3, famArity]
 
-theorem absent_distText1 (name : Str) {a : Rat} (ha : DistNumOK a) (c : Char)
-    (hd : c.isDigit = false) (hp : c ∉ ['.', 'e', '-', '+', '(', ')', '|']) (hn : c ∉ name) : c ∉ distText1 name a := by
+/-- **C01 / C11 (the text form reproduces the parameter: flory_schulz)** -/
+theorem dist_florySchulz_roundtrip (a : Rat) (ha : DistNumOK a) :
+    parseDist (printDist { fam := .florySchulz, params := [a] }) = .ok { fam := .florySchulz, params := [a] } := by
+  rw [printDist_florySchulz]
+  exact dist_florySchulz_written _ a ha
+
+theorem absent_distText1 (name : Str) {ta : Str} {a : Rat} (ha : TokOK ta a) (c : Char)
+    (hd : c.isDigit = false) (hp : c ∉ ['.', 'e', '-', '+', '(', ')', '|']) (hn : c ∉ name) : c ∉ distText1Of name ta := by
   intro hc
-  simp only [distText1, singleText, List.mem_cons, List.mem_append, List.mem_nil_iff, or_false] at hc
+  simp only [distText1Of, singleTextOf, List.mem_cons, List.mem_append, List.mem_nil_iff, or_false] at hc
   rcases hc with rfl | hc | (rfl | hc | rfl) | rfl
   · exact hp (by decide)
   · exact hn hc
@@ -477,37 +502,36 @@ theorem slice_inner (name t : Str) :
   rw [hd]; simp
 
 theorem printDist_poisson (a : Rat) : printDist { fam := .poisson, params := [a] } = distText1 "poisson".toList a := by
-  simp [printDist, distText1, singleText, famText]
+  simp [printDist, distText1Of, singleTextOf, famText]
 
-/-- **C01 / C11 (the text form reproduces the parameter: poisson)** — this family reads its parameter with `float(text[len("poisson") + 1 : -1])` -/
-theorem dist_poisson_roundtrip (a : Rat) (ha : DistNumOK a) (hpf : parseFloat (numStr a) = .ok a) :
-    parseDist (printDist { fam := .poisson, params := [a] }) = .ok { fam := .poisson, params := [a] } := by
-  rw [printDist_poisson]
+/-- **C09 (parameter, every written numeral)**: `|poisson(ta)|` reads as family `poisson` with the value of `ta` -/
+theorem dist_poisson_written (ta : Str) (a : Rat) (ha : TokOK ta a) (hpf : parseFloat ta = .ok a) :
+    parseDist (distText1Of "poisson".toList ta) = .ok { fam := .poisson, params := [a] } := by
   generalize hn : "poisson".toList = name
   have hx : name = 'p' :: ['o', 'i', 's', 's', 'o', 'n'] := by rw [← hn]; decide
   have hf : ∀ c, c ∈ name → c ∈ ['p', 'o', 'i', 's', 'n'] := by intro c hc; rw [hx] at hc; simp at hc ⊢; tauto
   have ab : ∀ c, c ∉ ['p', 'o', 'i', 's', 'n'] → c ∉ name := fun c h h' => h (hf c h')
-  have h1 : contains (distText1 name a) "flory_schulz".toList = false :=
+  have h1 : contains (distText1Of name ta) "flory_schulz".toList = false :=
     contains_absent _ _ 'f' (by decide) (absent_distText1 _ ha 'f' (by decide) (by decide) (ab _ (by decide)))
-  have h2 : contains (distText1 name a) "gauss".toList = false :=
+  have h2 : contains (distText1Of name ta) "gauss".toList = false :=
     contains_absent _ _ 'g' (by decide) (absent_distText1 _ ha 'g' (by decide) (by decide) (ab _ (by decide)))
-  have h3 : contains (distText1 name a) "uniform".toList = false :=
+  have h3 : contains (distText1Of name ta) "uniform".toList = false :=
     contains_absent _ _ 'u' (by decide) (absent_distText1 _ ha 'u' (by decide) (by decide) (ab _ (by decide)))
-  have h4 : contains (distText1 name a) "schulz_zimm".toList = false :=
+  have h4 : contains (distText1Of name ta) "schulz_zimm".toList = false :=
     contains_absent _ _ 'c' (by decide) (absent_distText1 _ ha 'c' (by decide) (by decide) (ab _ (by decide)))
-  have h5 : contains (distText1 name a) "log_normal".toList = false :=
+  have h5 : contains (distText1Of name ta) "log_normal".toList = false :=
     contains_absent _ _ 'l' (by decide) (absent_distText1 _ ha 'l' (by decide) (by decide) (ab _ (by decide)))
-  have h6 : contains (distText1 name a) "poisson".toList = true := by rw [hn]; exact contains_at_one _ _ _
-  have hrev : ∃ ys, (name ++ singleText a).reverse = ')' :: ys := ⟨(name ++ '(' :: numStr a).reverse, by simp [singleText]⟩
+  have h6 : contains (distText1Of name ta) "poisson".toList = true := by rw [hn]; exact contains_at_one _ _ _
+  have hrev : ∃ ys, (name ++ singleTextOf ta).reverse = ')' :: ys := ⟨(name ++ '(' :: ta).reverse, by simp [singleTextOf]⟩
   obtain ⟨ys, hys⟩ := hrev
-  have hstrip : stripChars "| \t\n".toList (distText1 name a) = name ++ singleText a := by
-    unfold stripChars distText1
-    have := stripBy_sandwich (fun c => ("| \t\n".toList).contains c) ['|'] (name ++ singleText a) ['|']
+  have hstrip : stripChars "| \t\n".toList (distText1Of name ta) = name ++ singleTextOf ta := by
+    unfold stripChars distText1Of
+    have := stripBy_sandwich (fun c => ("| \t\n".toList).contains c) ['|'] (name ++ singleTextOf ta) ['|']
       (by intro c hc; simp at hc; subst hc; decide) (by intro c hc; simp at hc; subst hc; decide)
-      'p' (['o', 'i', 's', 's', 'o', 'n'] ++ singleText a) (by rw [hx]; rfl) (by decide) ')' ys hys (by decide)
+      'p' (['o', 'i', 's', 's', 'o', 'n'] ++ singleTextOf ta) (by rw [hx]; rfl) (by decide) ')' ys hys (by decide)
     simpa using this
   have hname : (famText FamilyName.poisson).toList = name := by rw [← hn]; rfl
-  have hsl : slice (name ++ singleText a) (some ((name.length : Int) + 1)) (some (-1)) = numStr a := slice_inner name (numStr a)
+  have hsl : slice (name ++ singleTextOf ta) (some ((name.length : Int) + 1)) (some (-1)) = ta := slice_inner name ta
   unfold parseDist
   simp only [distDispatch, List.find?_cons, h1, h2, h3, h4, h5, h6]
   simp only [hname, hstrip, startsWith, isPrefix_append]
@@ -515,6 +539,12 @@ theorem dist_poisson_roundtrip (a : Rat) (ha : DistNumOK a) (hpf : parseFloat (n
   simp only [e1, if_true, Bool.not_true, Bool.false_eq_true, if_false]
   rw [hsl]
   simp [floatOf, hpf]
+
+/-- **C01 / C11 (the text form reproduces the parameter: poisson)** — this family reads its parameter with `float(text[len("poisson") + 1 : -1])` -/
+theorem dist_poisson_roundtrip (a : Rat) (ha : DistNumOK a) (hpf : parseFloat (numStr a) = .ok a) :
+    parseDist (printDist { fam := .poisson, params := [a] }) = .ok { fam := .poisson, params := [a] } := by
+  rw [printDist_poisson]
+  exact dist_poisson_written _ a ha hpf
 
 
 /-! ## uniform: bounds printed as integers, read through the tuple syntax and truncated -/
@@ -536,23 +566,29 @@ theorem parseDist_pair_uniform (name ta tb : Str) (a b : Rat) (ha : TokOK ta a) 
 theorem printDist_uniform (a b : Rat) : printDist { fam := .uniform, params := [a, b] } = distTextOf "uniform".toList (intStr a) (intStr b) := by
   simp [printDist, distTextOf, pairTextOf, famText]
 
+/-- **C09 (parameter order, every written numeral: uniform)**: `|uniform(ta, tb)|` reads as the bounds `[int(value ta), int(value tb)]` (low, high) -/
+theorem dist_uniform_written (ta tb : Str) (a b : Rat) (ha : TokOK ta a) (hb : TokOK tb b) :
+    parseDist (distTextOf "uniform".toList ta tb) = .ok { fam := .uniform, params := [truncRat a, truncRat b] } := by
+  generalize hn : "uniform".toList = name
+  have hx : name = 'u' :: ['n', 'i', 'f', 'o', 'r', 'm'] := by rw [← hn]; decide
+  have hf : ∀ c, c ∈ name → c ∈ ['u', 'n', 'i', 'f', 'o', 'r', 'm'] := by intro c hc; rw [hx] at hc; simp at hc ⊢; tauto
+  have ab : ∀ c, c ∉ ['u', 'n', 'i', 'f', 'o', 'r', 'm'] → c ∉ name := fun c h h' => h (hf c h')
+  have h1 : contains (distTextOf name ta tb) "flory_schulz".toList = false :=
+    contains_absent _ _ 'l' (by decide) (absent_distText _ ha hb 'l' (by decide) (by decide) (ab _ (by decide)))
+  have h2 : contains (distTextOf name ta tb) "gauss".toList = false :=
+    contains_absent _ _ 'g' (by decide) (absent_distText _ ha hb 'g' (by decide) (by decide) (ab _ (by decide)))
+  have h3 : contains (distTextOf name ta tb) "uniform".toList = true := by rw [hn]; exact contains_at_one _ _ _
+  have := parseDist_pair_uniform name ta tb a b ha hb (by rw [← hn]; rfl) 'u' _ hx (by decide)
+    (by simp only [distDispatch, List.find?_cons, h1, h2, h3]; rfl)
+  exact this
+
+
 /-- **C01 / C11 (the text form reproduces the parameters: uniform)**: the bounds are printed as integers (`intStr`); the printed text reads back
 as the same bounds whenever those are whole numbers (`truncRat a = a`) whose digit strings satisfy the side condition -/
 theorem dist_uniform_roundtrip (a b : Rat) (ha : TokOK (intStr a) a) (hb : TokOK (intStr b) b) (hta : truncRat a = a) (htb : truncRat b = b) :
     parseDist (printDist { fam := .uniform, params := [a, b] }) = .ok { fam := .uniform, params := [a, b] } := by
   rw [printDist_uniform]
-  generalize hn : "uniform".toList = name
-  have hx : name = 'u' :: ['n', 'i', 'f', 'o', 'r', 'm'] := by rw [← hn]; decide
-  have hf : ∀ c, c ∈ name → c ∈ ['u', 'n', 'i', 'f', 'o', 'r', 'm'] := by intro c hc; rw [hx] at hc; simp at hc ⊢; tauto
-  have ab : ∀ c, c ∉ ['u', 'n', 'i', 'f', 'o', 'r', 'm'] → c ∉ name := fun c h h' => h (hf c h')
-  have h1 : contains (distTextOf name (intStr a) (intStr b)) "flory_schulz".toList = false :=
-    contains_absent _ _ 'l' (by decide) (absent_distText _ ha hb 'l' (by decide) (by decide) (ab _ (by decide)))
-  have h2 : contains (distTextOf name (intStr a) (intStr b)) "gauss".toList = false :=
-    contains_absent _ _ 'g' (by decide) (absent_distText _ ha hb 'g' (by decide) (by decide) (ab _ (by decide)))
-  have h3 : contains (distTextOf name (intStr a) (intStr b)) "uniform".toList = true := by rw [hn]; exact contains_at_one _ _ _
-  have := parseDist_pair_uniform name (intStr a) (intStr b) a b ha hb (by rw [← hn]; rfl) 'u' _ hx (by decide)
-    (by simp only [distDispatch, List.find?_cons, h1, h2, h3]; rfl)
-  rw [this, hta, htb]
+  rw [dist_uniform_written _ _ a b ha hb, hta, htb]
 
 /-- non-vacuity: the bounds 12 and 72 -/
 example : TokOK (intStr 12) 12 ∧ TokOK (intStr 72) 72 ∧ truncRat 12 = 12 ∧ truncRat 72 = 72 := by
